@@ -392,7 +392,8 @@ EXTRA = {
            "C04_only_invalid_layer_site_reachable (EVERY mode incl. `check all its-stave`, every configuration, every packet list: a validator runs through or stops at "
            "Stave::from_feeid's site, and then a packet names layer 7 -- recorded finding F6), C04_whole_run_panics_only_for_layer_7 / C04_whole_run_outcomes (the same "
            "for the whole `check` run: scanner, dispatcher, all validators, collector), C04_frame_view_panics_only_for_layer_7 / C04_frame_view_outcomes / "
-           "C04_known_finding_layer_7_witness (the two frame views); the panic prediction of the extracted run and view models is compared with the binary on every unfiltered "
+           "C04_known_finding_layer_7_witness (the two frame views), C04_scanner_terminates_on_every_input / C04_scanner_packet_bound (ARBITRARY bytes, every configuration: the reader loop "
+           "ends within length/64 + 2 rounds and hands on at most length/64 packets); the panic prediction of the extracted run and view models is compared with the binary on every unfiltered "
            "run; a fixed corpus of the crash inputs of every recorded or repaired finding and of inputs longer than the reader's look-ahead runs first.",
     "C13": "ALSO: since defect F17 was repaired C13_frame_verdict and C13_lane_count_rule carry no hypothesis on the lane numbers of the fatal list; "
            "C13_fatal_lanes_form_a_set (over ANY sequence of frames the list holds exactly the lanes that announced, each once -- lane A, lane B, lane A again included; "
